@@ -8,6 +8,7 @@ mod c17;
 mod c18;
 mod c20;
 mod check;
+mod procs;
 mod runner;
 mod streams;
 mod world;
